@@ -108,4 +108,12 @@ def enc (m : Mapper) (_f : Facts) (name : String) (obj : J) : Except Err (Hd × 
 
 def conv (m : Mapper) : Conv := ⟨dec m, enc m⟩
 
+/-- get_xmlns_from_data (dataobjects.py:490-491): the `xmlns` attribute of a DataElement -/
+def xmlnsOfObj : J → List (String × String)
+  | .elem _ _ _ _ _ x => x
+  | _ => []
+
+/-- DataElementConverter with the name mapping `m sc` of the declarations in scope -/
+def sconv (m : NsScope → Mapper) : SConv := ⟨fun sc => conv (m sc), xmlnsOfObj⟩
+
 end XsVerif.Conv.DE
